@@ -93,6 +93,9 @@ func main() {
 
 func replay(path string) int {
 	p := path
+	if a, err := filepath.Abs(p); err == nil {
+		p = a // the test binary runs in its own directory
+	}
 	if st, err := os.Stat(p); err == nil && st.IsDir() {
 		p = filepath.Join(p, "case.json")
 	}
